@@ -76,6 +76,19 @@ func cmdCheck(args []string) int {
 		r, err := e(env, p, prop, cf.Engines[n])
 		if err != nil {
 			fmt.Fprintf(os.Stderr, "govc: engine %s: %v\n", n, err)
+			msg := err.Error()
+			if strings.Contains(msg, "panic:") || strings.Contains(msg, "fatal error:") {
+				// the tree builds, but the code under test crashed inside one of the in-package drivers (e.g. Compile panics on
+				// an ordinary expression): that is a failing obligation of this property, not an unusable input
+				if len(msg) > 1500 {
+					msg = msg[:1500]
+				}
+				r = &core.Result{Extra: map[string]interface{}{}}
+				r.Obls = append(r.Obls, &core.Obl{Name: n + "/driver/the-code-under-test-crashes", Kind: "driver-crash", Tier: "bounded", Status: core.Refuted,
+					Detail: "the code under test panicked inside the " + n + " driver, which runs Compile / Eval on ordinary inputs: " + msg})
+				res.Merge(r)
+				continue
+			}
 			return 2
 		}
 		res.Merge(r)
